@@ -14,7 +14,7 @@ list() {
     esac
   done
   for d in /verif/mutants/RM_*/; do n=$(basename $d); echo "$d/patch.diff /tmp/combofacts/m${n#RM_}"; done
-  for d in /verif/mutants/[FM][0-9]*/; do n=$(basename $d); echo "$d/patch.diff /tmp/mutfacts/$n"; done
+  for d in /verif/mutants/[FM][0-9]*/ /verif/mutants/MC_*/; do n=$(basename $d); echo "$d/patch.diff /tmp/mutfacts/$n"; done
   for d in /verif/refactors/*/; do n=$(basename $d)
     case $n in
       r2_*) echo "$d/patch.diff /tmp/refac2facts/${n#r2_}";;
